@@ -75,7 +75,7 @@ def containment(t, h):
                 kids.append((n, off, off + sz))
         else:
             shape = tuple(int(s) for s in ch._shape)
-            for idx in np.ndindex(*shape):
+            for idx in xt.ndindex(shape):
                 off = int(ch._get_offset(idx))
                 if ct[1][0] in ("St", "A"):
                     sz = hand.size_of(ch[idx if len(idx) > 1 else idx[0]])
